@@ -226,11 +226,14 @@ def addToGroup (m : String) (c : Name) : List ImportFrom → List ImportFrom
   | [] => [⟨0, m, [c]⟩]
   | g :: gs => if g.module = m then { g with names := g.names ++ [c] } :: gs else g :: addToGroup m c gs
 
+def fwdStep (importedClasses : List (Name × String)) (acc : List ImportFrom) (c : Name) : Except Err (List ImportFrom) :=
+  match lookup importedClasses c with
+  | some m => .ok (addToGroup m c acc)
+  | none => .error (.keyError c)
+
 def forwardRefImports (e : EnumOracle) (types : List Name) (importedClasses : List (Name × String)) :
     Except Err (List ImportFrom) :=
-  (e types).foldlM (fun acc c => match lookup importedClasses c with
-    | some m => .ok (addToGroup m c acc)
-    | none => .error (.keyError c)) []
+  (e types).foldlM (fwdStep importedClasses) []
 
 /-! ### contrib/shorter_results.py — `generate_client_module`
 
@@ -245,20 +248,21 @@ for import_from, alias in self.extended_imports.items():
     module.body.insert(0, generate_import_from(names=list(alias), from_=import_from))
 ```
 `ext` is the dict (insertion order) module ↦ set listing. -/
+def extGo (e : EnumOracle) : List ImportFrom → List (String × List Name) → List ImportFrom × List (String × List Name)
+  | [], ext => ([], ext)
+  | s :: rest, ext =>
+    match lookup ext s.module with
+    | some add =>
+      let r := extGo e rest (ext.filter (fun p => p.1 != s.module))     -- `pop`
+      ({ s with names := s.names ++ e add } :: r.1, r.2)
+    | none =>
+      let r := extGo e rest ext
+      (s :: r.1, r.2)
+
 def extendImports (e : EnumOracle) (stmts : List ImportFrom) (ext : List (String × List Name)) : List ImportFrom :=
-  let rec go : List ImportFrom → List (String × List Name) → List ImportFrom × List (String × List Name)
-    | [], ext => ([], ext)
-    | s :: rest, ext =>
-      match lookup ext s.module with
-      | some add =>
-        let (rest', ext') := go rest (ext.filter (fun p => p.1 != s.module))
-        ({ s with names := s.names ++ e add } :: rest', ext')
-      | none =>
-        let (rest', ext') := go rest ext
-        (s :: rest', ext')
-  let (stmts', left) := go stmts ext
+  let r := extGo e stmts ext
   -- every remaining entry is inserted at position 0, one after the other: the last ends up first
-  (left.reverse.map (fun (m, ns) => (⟨0, m, e ns⟩ : ImportFrom))) ++ stmts'
+  (r.2.reverse.map (fun p => (⟨0, p.1, e p.2⟩ : ImportFrom))) ++ r.1
 
 /-! ### enums.py — `_filter_class_defs(types_to_include)` : schema order, membership only
 
